@@ -176,8 +176,8 @@ NextF(b, l) ==
 Rcv == src.rcvd
 Rd == src.rcvd - buf.len - pc.direct     \* bytes read straight into the caller's buffer are not consumed until Read returns
 
-AbsRes(kind, n, k, run, cls, ln) == [k |-> kind, n |-> n, cnt |-> k, run |-> run, cls |-> cls, len |-> ln, rcv |-> src.rcvd]
-NoRes == [k |-> "none", n |-> 0, cnt |-> 0, run |-> NoRun, cls |-> "ok", len |-> 0, rcv |-> 0]
+AbsRes(kind, n, k, run, cls, ln) == [k |-> kind, n |-> n, cnt |-> k, run |-> run, cls |-> cls, len |-> ln, rcv |-> src.rcvd, ab |-> 0]
+NoRes == [k |-> "none", n |-> 0, cnt |-> 0, run |-> NoRun, cls |-> "ok", len |-> 0, rcv |-> 0, ab |-> 0]
 
 BQ == INSTANCE ByteQueue WITH
         eofAt <- src.eofAt, rcv <- Rcv, rd <- Rd, perr <- abs.perr, term <- src.term,
